@@ -147,6 +147,20 @@ impl StateMachineTrait for Metadata {
                 sealed_segment_entry_count,
             } => {
                 if let Some(topic_state) = state.topics.get_mut(&name) {
+                    // Compute both new values before touching anything: an overflow here
+                    // used to panic with the write lock held (overflow checks on, poisoning
+                    // the lock for good) or to wrap silently (release).
+                    let new_offset = match topic_state
+                        .last_sealed_entry_offset
+                        .checked_add(sealed_segment_entry_count)
+                    {
+                        Some(v) => v,
+                        None => return Err("sealed entry count overflow".into()),
+                    };
+                    let next_segment = match topic_state.current_segment.checked_add(1) {
+                        Some(v) => v,
+                        None => return Err("segment id overflow".into()),
+                    };
                     let sealed_seg = topic_state.current_segment;
                     topic_state
                         .sealed_segments
@@ -154,8 +168,8 @@ impl StateMachineTrait for Metadata {
                     topic_state
                         .segment_leaders
                         .insert(sealed_seg, topic_state.leader_node);
-                    topic_state.last_sealed_entry_offset += sealed_segment_entry_count;
-                    topic_state.current_segment += 1;
+                    topic_state.last_sealed_entry_offset = new_offset;
+                    topic_state.current_segment = next_segment;
                     topic_state.leader_node = new_leader;
                     topic_state
                         .segment_leaders
